@@ -1,7 +1,7 @@
 ------------------------------- MODULE MC_U3 -------------------------------
 (* Universe U3: flat a, b, c, d: chains, diamonds, consumer-before-producer, function task and linear knob. *)
 EXTENDS Integers, Sequences, FiniteSets, TLC, Json
-CONSTANTS Faults, Extras, MaxDepth, EmitIdx
+CONSTANTS Faults, Extras, Transfers, MaxDepth, EmitIdx
 VARIABLES mem, defs, reg, kprev, frozen, ghost, last, depth
 
 LeafSeq == <<"a", "b", "c", "d">>
@@ -27,7 +27,7 @@ cTaskSpec == [t \in {"F1", "K1"} |->
    IF t = "F1" THEN [kind |-> "fn", deps |-> {"a", "b"}, targets |-> {"d"}, out |-> "d", ins |-> <<"a", "b">>]
    ELSE [kind |-> "knob", src |-> "a", deps |-> {"a"}, targets |-> {"b", "c"}, tl |-> <<"b", "c">>, w |-> <<2, 3>>]]
 
-INSTANCE Manager WITH Loc <- cLoc, Leaf <- cLeaf, Par <- cPar, ValsOf <- cValsOf, InitMem <- cInitMem,
+INSTANCE Manager WITH KeepLoc <- "d", KeepExpr <- B("+", R("a"), L(1)), Loc <- cLoc, Leaf <- cLeaf, Par <- cPar, ValsOf <- cValsOf, InitMem <- cInitMem,
    Menu <- cMenu, ExprTargets <- cLeaf, TaskSpec <- cTaskSpec, IpOps <- {"+", "*", "-"}, IpArgs <- {3}
 
 ASSUME PrintT(ToJson(<<"INIT", <<cInitMem, [x \in cLeaf |-> NoDef], {}, [t \in DOMAIN cTaskSpec |-> 0], FALSE, {}>>>>))
